@@ -68,6 +68,10 @@ TreePairs ==
     {[b1 |-> <<F(PYml, "text", "T1"), F(PKey, "binary", "B3")>>, b2 |-> <<F(PYml, "text", "T2"), F(PKey, "binary", "B1")>>, b3 |-> <<F(PYml, "text", "T3")>>],
      [b1 |-> <<F(PNotice, "text", "T2"), F(PJar, "binary", "B2")>>, b2 |-> <<F(<<"config", "jvm.options">>, "text", "T1")>>, b3 |-> <<F(PJar, "binary", "B3")>>],
      [b1 |-> <<F(PYml, "text", "T1")>>, b2 |-> <<>>, b3 |-> <<>>],
+     \* the same file NAME in two directories of one config base (and across bases), with different template text
+     [b1 |-> <<F(<<"config", "log4j2.properties">>, "text", "T1"), F(<<"config", "x-pack", "log4j2.properties">>, "text", "T2")>>,
+      b2 |-> <<F(<<"config", "x-pack", "log4j2.properties">>, "text", "T1"), F(<<"log4j2.properties">>, "text", "T3")>>,
+      b3 |-> <<F(<<"config", "log4j2.properties">>, "text", "T2")>>],
      [b1 |-> <<F(<<"config", "a", "b", "deep.properties">>, "text", "T2"), F(<<"top.yml">>, "text", "T3")>>,
       b2 |-> <<F(<<"config", "a", "b", "deep.properties">>, "text", "T1"), F(<<"config", "a", "other.bin">>, "binary", "B1")>>,
       b3 |-> <<F(<<"top.yml">>, "text", "T1")>>]}
